@@ -225,7 +225,7 @@ def valuation_refs(res, model):
                   "account: every market once, converted by ITS quote token's price; every asset at ITS token's price; sum",
                   FX, opaque=[], ordered=False)
     M = "UniLpMarket."
-    opq = ["base_unit_price_to_sqrt_price_x96", "get_token_amounts"]
+    opq = ["base_unit_price_to_sqrt_price_x96", "get_amounts"]      # get_token_amounts inlined: its zero-liquidity shortcut is visible
     formula_check(res, model, M + "get_market_balance", U.REF_UNI_BALANCE,
                   "Uniswap: liquidity at the bar price + uncollected fees; lent positions skipped entirely", opaque=opq, aliases=UNI_ALIASES)
     aopq = ["total_supply_value", "total_borrows_value", "total_collateral_value", "supply_apy", "borrow_apy", "liquidation_threshold",
